@@ -584,7 +584,7 @@ func main() {
 	runner.Main(runner.Spec{
 		ID:    "C17",
 		Level: "model_checking",
-		Rule: "stateless model checking of the real circuit package (scratch sync.Pool behind a lazily set atomic pointer) under a controlled scheduler: T=2 threads x all pairs of 7 programs over {Garble, Garble with failing randomness, Eval+check, Release, double Release, Compute+check} and T=3 threads x all triples of 4 programs, on 3 circuits; EVERY interleaving with <= P preemptions and <= E deviations of what sync.Pool.Get returns (any pooled item or a fresh one); oracle: each Eval decodes on every input to the truth table using that garbling's wires, garblings still live at the end are still valid, no two live garblings share a scratch, no panic/deadlock. Plus a separate free-running `go test -race` pass of the same bodies on unmodified code. " +
+		Rule: "stateless model checking of the real circuit package (scratch sync.Pool behind a lazily set atomic pointer) under a controlled scheduler: T=2 threads x all pairs of 7 programs over {Garble, Garble with failing randomness, Eval+check, Release, double Release, Compute+check} and T=3 threads x all triples of 4 programs, on 3 circuits; EVERY interleaving with <= P preemptions and <= E deviations of what sync.Pool.Get returns (any pooled item or a fresh one); oracle: each Eval decodes on every input to the truth table using that garbling's wires, garblings still live at the end are still valid, no two live garblings share a scratch, no panic/deadlock. UNBOUNDED part: the two-thread systems over 6 (thorough 10) programs on 2 (3) circuits and 1 (5) three-thread systems are explored without preemption or deviation bounds with sleep sets (at least one interleaving of every Mazurkiewicz trace x every pool answer; counters unbounded_*); operation D drops a handle without releasing it and keeps using its slices (finalizers, if the code registers any, become scheduler threads). Plus a separate free-running `go test -race` pass of the same bodies on unmodified code. " +
 			"states = distinct abstract scheduler states; transitions = scheduling steps; traces_validated_against_impl = complete executions",
 		Assumptions: []string{
 			"circuit is rewritten at check time: sync.Pool and atomic.Pointer become scheduler operations; the harness yields between a thread's steps; code between two synchronisation operations runs atomically",
